@@ -183,27 +183,60 @@ fn short(y: &Y) -> String {
     }
 }
 
+/// Failure shapes of open findings: recognised narrowly, reported after the rest of the
+/// stream has been checked (the engine excludes and counts them while the finding is open).
+const OPEN_SHAPES: &[&str] = &[
+    // the index keeps its open positions in the dense (non-monotonic) table — in generated
+    // text: an empty document (`---` directly followed by `---` / `...`) whose synthetic null
+    // is recorded at text_len — and the reverse lookup binary-searches that unsorted table
+    "C29/locate/none/open-positions-not-monotonic(empty-document)",
+    "C29/at_offset/no-node/open-positions-not-monotonic(empty-document)",
+];
+
+fn info_of(cx: &StreamCx<'_>, ex: &Expect<'_>, o: usize, extra: Value) -> Value {
+    let text = cx.text;
+    let mut m = json!({
+        "offset": o, "role": ex.role, "style": ex.style, "doc": ex.doc, "path": gy::path_str(ex.path),
+        "token": show_bytes(&text[ex.span.0..ex.span.1.min(ex.span.0 + 80)]), "span": [ex.span.0, ex.span.1],
+        "expected_value": short(ex.target), "yaml": show_bytes(text),
+    });
+    if let (Some(a), Some(b)) = (m.as_object_mut(), extra.as_object()) {
+        for (k, v) in b {
+            a.insert(k.clone(), v.clone());
+        }
+    }
+    m
+}
+
+/// Everything asserted about one offset; a failure in an open shape does not stop the
+/// other half. `Err`: first failure (open-shape failures last).
 fn check_offset(cx: &StreamCx<'_>, ex: &Expect<'_>, o: usize, st: &mut Stats) -> Result<(), Fail> {
+    let a = check_locate(cx, ex, o, st);
+    if let Err(f) = &a {
+        if !OPEN_SHAPES.contains(&f.sig.as_str()) {
+            return a;
+        }
+    }
+    let b = check_at_offset(cx, ex, o, st);
+    if let Err(f) = &b {
+        if !OPEN_SHAPES.contains(&f.sig.as_str()) {
+            return b;
+        }
+    }
+    a.and(b)
+}
+
+fn check_locate(cx: &StreamCx<'_>, ex: &Expect<'_>, o: usize, st: &mut Stats) -> Result<(), Fail> {
     let text = cx.text;
     let root: YamlCursor<'_, Vec<u64>> = cx.index.root(text);
     let role = ex.role;
-    let info = |extra: Value| {
-        let mut m = json!({
-            "offset": o, "role": role, "style": ex.style, "doc": ex.doc, "path": gy::path_str(ex.path),
-            "token": show_bytes(&text[ex.span.0..ex.span.1.min(ex.span.0 + 80)]), "span": [ex.span.0, ex.span.1],
-            "expected_value": short(ex.target), "yaml": show_bytes(text),
-        });
-        if let (Some(a), Some(b)) = (m.as_object_mut(), extra.as_object()) {
-            for (k, v) in b {
-                a.insert(k.clone(), v.clone());
-            }
-        }
-        m
-    };
+    let dense = !cx.index.open_positions().is_compact();
+    let info = |extra: Value| info_of(cx, ex, o, extra);
 
     // ---- locate
     let res = match locate_offset_detailed(cx.index, text, o) {
         Some(x) => x,
+        None if dense => fail!(OPEN_SHAPES[0], info(json!({"open_positions_compact": false}))),
         None => fail!(format!("C29/locate/none/{}", role), info(json!({}))),
     };
     st.evals(1);
@@ -234,8 +267,15 @@ fn check_offset(cx: &StreamCx<'_>, ex: &Expect<'_>, o: usize, st: &mut Stats) ->
         }
         Err(e) => fail!(format!("C29/locate-expr/eval-failed/slurp-json/{}", role), info(json!({"expression": res.expression, "failure": e}))),
     }
+    Ok(())
+}
 
-    // ---- at_offset
+fn check_at_offset(cx: &StreamCx<'_>, ex: &Expect<'_>, o: usize, st: &mut Stats) -> Result<(), Fail> {
+    let text = cx.text;
+    let root: YamlCursor<'_, Vec<u64>> = cx.index.root(text);
+    let role = ex.role;
+    let dense = !cx.index.open_positions().is_compact();
+    let info = |extra: Value| info_of(cx, ex, o, extra);
     let prog = format!("at_offset({})", o);
     let expr = match jq::parse_with_mode(&prog, ParserMode::Yq) {
         Ok(e) => e,
@@ -250,6 +290,7 @@ fn check_offset(cx: &StreamCx<'_>, ex: &Expect<'_>, o: usize, st: &mut Stats) ->
                 }
             }
         }
+        Err(e) if dense && e == format!("error: no node at offset {}", o) => fail!(OPEN_SHAPES[1], info(json!({"program": prog, "failure": e, "open_positions_compact": false}))),
         Err(e) => fail!(format!("C29/at_offset/failed/{}", role), info(json!({"program": prog, "failure": e}))),
     }
     Ok(())
@@ -315,6 +356,8 @@ fn check_stream(stream: &[Y], r: &gy::RenderedYaml, u: &mut Src, st: &mut Stats,
         v.dedup();
         v
     };
+    st.class_if(!index.open_positions().is_compact(), "stream-open-positions-not-monotonic");
+    let mut known: Option<Fail> = None;
     for si in picks {
         let sp = &r.spans[si];
         let role = role_of(sp);
@@ -348,10 +391,20 @@ fn check_stream(stream: &[Y], r: &gy::RenderedYaml, u: &mut Src, st: &mut Stats,
             st.class_if(matches!(sp.style, YStyle::Single | YStyle::Double), "offset-in-quoted-token");
             st.class_if(role == "alias" && sp.value.is_container(), "offset-in-alias-to-collection");
             st.class_if(depth == 0, "offset-in-root-scalar");
-            check_offset(&cx, &ex, o, st)?;
+            if let Err(f) = check_offset(&cx, &ex, o, st) {
+                if !OPEN_SHAPES.contains(&f.sig.as_str()) {
+                    return Err(f);
+                }
+                if known.is_none() {
+                    known = Some(f);
+                }
+            }
         }
     }
-    Ok(())
+    match known {
+        Some(f) => Err(f),
+        None => Ok(()),
+    }
 }
 
 // ------------------------------------------------------------------ generation
@@ -457,7 +510,14 @@ fn replay_input(v: &Value) -> Option<Fail> {
     let cx = StreamCx { text: &text, index: &index, slurp_json: &sj, slurp_index: &sidx };
     let ex = Expect { doc, path: &path, role, style: "replay".into(), span: (o, (o + 1).min(text.len())), target: &target, own: &own };
     let mut st = Stats::default();
-    match catch(|| check_offset(&cx, &ex, o, &mut st)) {
+    // "check": "locate" | "at_offset" restricts the replay to one half (default: both)
+    let which = inp["check"].as_str().unwrap_or("both").to_string();
+    let run = || match which.as_str() {
+        "locate" => check_locate(&cx, &ex, o, &mut st),
+        "at_offset" => check_at_offset(&cx, &ex, o, &mut st),
+        _ => check_offset(&cx, &ex, o, &mut st),
+    };
+    match catch(run) {
         Ok(Ok(())) => None,
         Ok(Err(f)) => Some(f),
         Err((loc, msg)) => Some(Fail::new(format!("panic@{}", panic_sig(&loc)), json!({"panic": msg, "location": loc}))),
@@ -546,9 +606,37 @@ fn check_cli(stream: &[Y], r: &gy::RenderedYaml, u: &mut Src, st: &mut Stats, pe
     res
 }
 
+/// Development aid: `VH_C29_PROBE=<file> vh run C29 quick` prints the index's open
+/// positions, IB bits and what locate / at_offset say for every offset of the file.
+fn probe(path: &str) {
+    let text = std::fs::read(path).expect("probe file");
+    println!("text: {}", show_bytes(&text));
+    let index = match YamlIndex::build(&text) {
+        Ok(i) => i,
+        Err(e) => {
+            println!("build error: {}", e);
+            return;
+        }
+    };
+    let op = index.open_positions();
+    println!("open_positions (compact={}): {:?}", op.is_compact(), (0..op.len()).map(|i| op.get(i)).collect::<Vec<_>>());
+    println!("ib: {:?}", (0..text.len() + 1).filter(|&i| index.ib_rank1(i + 1) > index.ib_rank1(i)).collect::<Vec<_>>());
+    println!("json: {}", index.root(&text).to_json_document());
+    for o in 0..text.len() {
+        let l = locate_offset_detailed(&index, &text, o);
+        println!("  {:3} {:?}: {}", o, text[o] as char, l.map(|r| format!("{} {:?} {}", r.expression, r.byte_range, r.value_type)).unwrap_or_else(|| "None".into()));
+    }
+}
+
 // ------------------------------------------------------------------ run
 
 pub fn run(cx: &mut Ctx) {
+    if let Ok(p) = std::env::var("VH_C29_PROBE") {
+        for f in p.split(',') {
+            probe(f);
+        }
+        return;
+    }
     cx.assume("expected values come from the G-yaml model and the renderer's span table (the text is never parsed by harness code); G-yaml only emits presentations whose YAML 1.2.2 reading is unambiguous (gen/yaml.rs lists every exclusion)");
     cx.assume("the loader's open C14 findings are excluded by construction exactly as in C14's main search; a stream the loader reads differently from the model is C14's failure, not C29's");
     cx.assume("results are read back through eval_generic::to_owned / to_owned_cursor (YAML) and StandardJson navigation (JSON, checked by C06); the slurp-json route evaluates on a JSON array written by the harness from the model");
